@@ -567,11 +567,14 @@ impl PaZipCompressor {
 
     /// Decompress PA-Zip compressed data
     pub fn decompress(&mut self, input: &[u8], output: &mut Vec<u8>) -> Result<()> {
+        // `output` receives the decompressed record and nothing else: whatever a reused
+        // vector held before is dropped, also when the record is the empty one
+        output.clear();
+
         if input.is_empty() {
             return Ok(());
         }
 
-        output.clear();
         output.reserve(input.len() * 2); // Conservative estimate for decompressed size
 
         let mut pos = 0;
